@@ -418,7 +418,7 @@ func openView(path string, ep *stor.Epoch, addrs []oid.Address, targets []oid.ID
 
 // ---------- the property ----------
 
-var bulkLayouts = [][2]int{{1000, 3}, {999, 3}, {1001, 3}, {600, 500}, {3, 1000}}
+var bulkLayouts = [][2]int{{1000, 3}, {999, 3}, {1001, 3}, {600, 900}, {3, 1000}, {1500, 2}}
 var bulkLayoutsThorough = [][2]int{{2005, 10}, {1000, 1000}, {1500, 700}}
 
 func TestC42Upgrade(t *testing.T) {
